@@ -1731,7 +1731,9 @@ class Executor(object):
             # harness hook: hand the state at the loop head to the caller and stop this path
             spec["capture"](st, node, ctx)
             return []
-        invs = spec.get("invariant", [])
+        # LOOP_GUARD in an invariant stands for the loop's own test as written in the current source (progress clauses: "while the guard
+        # holds the body moves toward the exit" must follow the guard, not a copy of it)
+        invs = [i_.replace("LOOP_GUARD", "(" + ast.unparse(node.test) + ")") for i_ in spec.get("invariant", [])]
         variant = spec.get("variant")
         # 1. invariant holds on entry
         for i, inv in enumerate(invs):
